@@ -5,6 +5,7 @@ seeded random and exhaustive short operation sequences."""
 import io
 import itertools
 import os
+import sys
 import shutil
 import wave
 
@@ -83,12 +84,12 @@ def run_filelike(kind, path, data, sr, w, ch, ops, burst=0):
 
         class FakeStdin:
             buffer = io.BytesIO(data) if not burst else io.BufferedReader(Bursty(data, burst), buffer_size=max(16, burst))
-        old = aio.sys.stdin
-        aio.sys.stdin = FakeStdin
+        old = sys.stdin
+        sys.stdin = FakeStdin
         try:
             src = aio.StdinAudioSource(sr, w, ch)
         finally:
-            aio.sys.stdin = old
+            sys.stdin = old
     outs = []
     for o in ops:
         try:
